@@ -89,7 +89,7 @@ GARBAGE = {
 
 
 def key_for(fmt, i, rng):
-    base = ["first", "second", "third", "fourth", "fifth", "sixth", "seventh", "accesskey"][i % 8]
+    base = rng.choice(["first", "second", "third", "fourth", "fifth", "sixth", "accesskey", "commandKey", "label"])
     k = "%s%d" % (base, i)
     if fmt == "ftl":
         return k.replace("_", "-")
